@@ -36,8 +36,10 @@ func init() {
 }
 
 type item struct {
-	Name string `json:"name"`
-	N    int    `json:"n"`
+	Name string   `json:"name"`
+	N    int      `json:"n"`
+	Opt  string   `json:"opt,omitempty"`  // absent from the stored JSON for most values
+	Tags []string `json:"tags,omitempty"` // likewise
 }
 
 // Cfg is a store configuration.
@@ -100,7 +102,14 @@ func (f *fixture) value(n int) interface{} {
 	case "badger-map":
 		return map[string]interface{}{"name": "v" + strconv.Itoa(n), "n": n}
 	default:
-		return item{Name: "v" + strconv.Itoa(n), N: n}
+		it := item{Name: "v" + strconv.Itoa(n), N: n}
+		if n%3 == 0 {
+			it.Opt = "o" + strconv.Itoa(n)
+		}
+		if n%4 == 1 {
+			it.Tags = []string{"t" + strconv.Itoa(n)}
+		}
+		return it
 	}
 }
 
@@ -127,8 +136,10 @@ func (f *fixture) wrongType(n int) interface{} {
 		return map[string]interface{}{"name": "x"}
 	case 1:
 		return struct {
-			Name string `json:"name"`
-			N    int    `json:"n"`
+			Name string   `json:"name"`
+			N    int      `json:"n"`
+			Opt  string   `json:"opt,omitempty"`
+			Tags []string `json:"tags,omitempty"`
 		}{Name: "x"}
 	case 2:
 		return &item{Name: "x"}
